@@ -12,6 +12,7 @@ from ..unpack import (
     is_multi_sec,
 )
 from ..config import (
+    Config,
     MasterConfig,
 )
 from ..tract import Tract
@@ -343,11 +344,18 @@ class PLSSParser:
         self.parse_qq = parse_qq
         self.source = source
         self.orig_text = text
-        if handed_down_config is None:
-            handed_down_config = ''
+        # The parameters that exclusively affect the parsing of subordinate
+        # Tracts override the corresponding settings in the config that
+        # gets handed down to them.
+        handed_down_config = Config(handed_down_config)
+        handed_down_config.clean_qq = clean_qq
+        handed_down_config.qq_depth_min = qq_depth_min
+        handed_down_config.qq_depth_max = qq_depth_max
+        handed_down_config.qq_depth = qq_depth
+        handed_down_config.break_halves = break_halves
         if parse_qq:
-            handed_down_config = f"{handed_down_config},parse_qq"
-        self.handed_down_config = handed_down_config
+            handed_down_config.parse_qq = True
+        self.handed_down_config = handed_down_config.decompile_to_text()
 
         # These impact the parse of this PLSS description.
         self.mandate_layout = not segment and layout is not None
